@@ -32,6 +32,7 @@ Definition must_reject (class : str) : list str :=
   else if seqb class (B "deb-compression") then [P_deb]
   else if seqb class (B "rpm-compression") then [P_rpm]
   else if seqb class (B "deb-signature-type") then [P_deb]
+  else if seqb class (B "deb-signature-type-callback") then [P_deb]
   else if seqb class (B "archlinux-pkgname") then [P_arch]
   else if seqb class (B "archlinux-platform") then [P_arch]
   else if seqb class (B "apk-key-format") then [P_apk]
